@@ -712,7 +712,7 @@ func runC09Oracle(ctx *core.Ctx) {
 		addDoc(ctx, doc, m, "name-option", nil, "given-name")
 	}
 	// ---- 2. seeded random combinations
-	n := ctx.Pick(100, 4000)
+	n := ctx.Pick(100, 15000)
 	svcKeys := sortedKeys(pool.Service)
 	for i := 0; i < n; i++ {
 		doc := baseDoc()
